@@ -143,6 +143,18 @@ def scenarios(tier):
     for kind in (KINDS if not q else ["partial", "otherkey", "late-diverge"]):
         S.append(mk("stranger-hint-%s" % kind, dict(r_listens=True, strangers=[(kind, "hint-for-S")], chunking="whole", conn_fail=False, **L),
                     max_depth=100, max_states=800000))
+    # a relay server without the transit key ("ok" followed by its own idea of a handshake, arriving in one segment or cut at the line end):
+    # as the victim's only path, and racing (timers interleaved) with the honest direct path
+    for kind in (KINDS if not q else ["otherkey", "late-diverge", "reflect", "go-early"]):
+        S.append(mk("stranger-relay-only-for-S-%s" % kind, dict(strangers=[(kind, "relay-hint-for-S")], chunking="lines", conn_fail=False, **L),
+                    max_depth=100, max_states=800000))
+    for kind in (KINDS if not q else ["otherkey", "late-diverge"]):
+        S.append(mk("stranger-relay-only-for-R-%s" % kind, dict(strangers=[(kind, "relay-hint-for-R")], chunking="lines", conn_fail=False, **L),
+                    max_depth=100, max_states=800000))
+    S.append(mk("stranger-relay-vs-direct-S-dev", dict(r_listens=True, strangers=[("otherkey", "relay-hint-for-S")], chunking="lines", conn_fail=False),
+                dev_bound=3 if q else 4, max_depth=150))
+    S.append(mk("stranger-relay-vs-direct-R-dev", dict(s_listens=True, strangers=[("otherkey", "relay-hint-for-R")], chunking="lines", conn_fail=False),
+                dev_bound=3 if q else 4, max_depth=150))
     S.append(mk("stranger-on-S-listener", dict(s_listens=True, strangers=[("otherkey", "S-listener")], chunking="whole", conn_fail=False, **L),
                 max_depth=100, max_states=800000))
     S.append(mk("stranger-timers-dev", dict(r_listens=True, strangers=[("partial", "R-listener")], chunking="whole", conn_fail=False),
